@@ -1,4 +1,5 @@
 pub mod clientdrv;
+pub mod codec;
 pub mod obs;
 pub mod server;
 pub mod steps;
